@@ -475,8 +475,9 @@ def remove_small_rotations(circuit, param_threshold=1e-3, remove_qubits=False):
         Circuit: The circuit without small-rotation gates.
     """
 
-    rot_gates = {"RX", "RY", "RZ", "CRX", "CRY", "CRZ"}
-    gates = [g for g in circuit._gates if not (g.name in rot_gates and abs(g.parameter) % (2*np.pi) < param_threshold)]
+    # Controlled rotations are 4*pi periodic (CRZ(2*pi) is a Z gate on the control qubit, not the identity)
+    rot_gates = {"RX": 2*np.pi, "RY": 2*np.pi, "RZ": 2*np.pi, "CRX": 4*np.pi, "CRY": 4*np.pi, "CRZ": 4*np.pi}
+    gates = [g for g in circuit._gates if not (g.name in rot_gates and abs(g.parameter) % rot_gates[g.name] < param_threshold)]
 
     return Circuit(gates) if remove_qubits else Circuit(gates, n_qubits=circuit.width)
 
